@@ -50,6 +50,11 @@ def cases(tier, rng):
         rs += [rng.choice([1, 4096, 65536]) for _ in range(rng.range(0, 12))]
         line = "c01ws %d %s %d %s" % (len(ws), " ".join(map(str, ws)), len(rs), " ".join(map(str, rs)))
         cs.append({"line": line, "key": line, "tags": {"carrier": "ws-adapter", "n": total, "dir": "adapter"}})
+    # the client's standard-stream listener (the ProxyCommand use): the application talks to the listener over one duplex stream
+    for c in (["tcp", "ws", "kcp", "tcp-starttls"] if thorough else ["tcp", "ws"]):
+        for n in ((1, 40000, 1000000) if thorough else (40000,)):
+            line = "c01io %s %d app" % (c, n)
+            cs.append({"line": line, "key": line, "model": False, "tags": {"carrier": c + "+stdin-listener", "n": n, "dir": "both"}})
     # several logical connections transferring both ways at the same time over one session, also with one or two scheduler threads (a
     # buffer handed from one connection to another by mistake shows when goroutines switch at blocking points only)
     for c, k, n, procs in ([("tcp", 4, 2000000, 1), ("tcp", 4, 2000000, 2), ("ws", 4, 1000000, 1), ("tcp", 6, 1000000, 0)] +
@@ -98,6 +103,8 @@ def oracle(case, impl):
                     out.append(("bytes-%s;carrier=%s;parallel" % (kind, t["carrier"]),
                                 "with %s logical connections transferring at the same time, connection %s received %d of %d octets %s, first difference at %d (%s)" % (case["line"].split()[2], i, got, t["n"], d, diff, case["line"])))
         return out[:3]
+    if "eof" in p:
+        p = p[:p.index("eof")]
     out = []
     f = {}
     i = 0
